@@ -8,7 +8,9 @@ def sig_fields(ev):
 
 
 def run(tier, seed, work, replay):
-    res, evs = certpolicy.run_policy("C02", tier, seed, work, sig_fields)
+    res, evs = certpolicy.run_policy("C02", tier, seed, work, sig_fields,
+                                     extra_env={"VERIF_STORM_SECS": "10" if tier == "quick" else "45"})
+    res.cov["certificates_issued_concurrently_to_two_users"] = sum(1 for e in evs if e["case"].get("storm"))
     res.cov["rule"] = ("rows of the C02 table enumerated by TLC: user-name class x accepted key x certificate type x "
                        "deployment variant (Ed25519 CA, Kerberos realm, extension templates, groups) x target "
                        "(self / other / case variant); login goes through the real login handler")
